@@ -1342,6 +1342,7 @@ func (fr *Frame) instr(ins ssa.Instruction, st *State) {
 		c.heapSet(st, dk, app("store", c.heapGet(st, dk), r, fmt.Sprintf("((as const (Array %s Bool)) false)", ks)))
 		fr.vals[x] = Val{T: Term{r, SInt, x.Type()}}
 	case *ssa.MapUpdate:
+		fr.aliasCheckKeep(x.Value, x.Pos(), st)
 		m := fr.term(x.Map, st).S
 		k := fr.term(x.Key, st).S
 		v := fr.term(x.Value, st).S
@@ -1365,6 +1366,7 @@ func (fr *Frame) instr(ins ssa.Instruction, st *State) {
 	case *ssa.RunDefers:
 		fr.runDefers(st)
 	case *ssa.Return:
+		fr.aliasCheckReturn(x, st)
 		var res []Term
 		for _, r := range x.Results {
 			res = append(res, fr.term(r, st))
@@ -2127,6 +2129,9 @@ func (fr *Frame) aliasCheckStore(x *ssa.Store, st *State) {
 	if !fr.top || c.fc == nil || !isMutableSlice(x.Val.Type()) {
 		return
 	}
+	if dst := fr.lvalOf(x.Addr, st); dst.kind != lvLocal {
+		fr.aliasCheckKeep(x.Val, x.Pos(), st)
+	}
 	o := sliceOrigin(x.Val, 0)
 	if o == nil {
 		return
@@ -2171,11 +2176,16 @@ func (fr *Frame) aliasCheckCall(fc *FuncContract, callee *ssa.Function, cc *ssa.
 		if !ret {
 			continue
 		}
-		o := sliceOrigin(cc.Args[i], 0)
-		if o == nil {
-			continue
+		shared := false
+		if o := sliceOrigin(cc.Args[i], 0); o != nil {
+			if _, ok := fr.prov[o]; ok {
+				shared = true
+			}
 		}
-		if _, ok := fr.prov[o]; !ok {
+		if kind, src := fr.sliceSource(cc.Args[i], 0); kind == "aliasresult" || (kind == "param" && !fr.retainsParam(src)) {
+			shared = true
+		}
+		if !shared {
 			continue
 		}
 		if c.fc.AllowAlias != "" {
@@ -2186,5 +2196,144 @@ func (fr *Frame) aliasCheckCall(fc *FuncContract, callee *ssa.Function, cc *ssa.
 		ob := c.obligation("alias", "", pos, line, st.reach, "false", nil)
 		c.continueAfterFalse(st)
 		ob.Note = "a slice loaded from a location is handed to " + shortFuncName(callee.String()) + ", which keeps it (retains " + p.Name() + "): the two locations share a backing array (outside the value-semantics model, A-ALIAS)"
+	}
+}
+
+// sliceSource classifies where a slice value's backing array comes from, looking through reslicing,
+// conversions and phis: "param" (a slice parameter of the function), "aliasresult" (the result of a call
+// whose contract says returns_alias), "heap" (loaded from memory or from a map entry), or "" (fresh:
+// make, append to a fresh slice, conversion from a string, a literal, an unknown call result).
+func (fr *Frame) sliceSource(v ssa.Value, depth int) (string, ssa.Value) {
+	if depth > 6 {
+		return "", nil
+	}
+	switch x := v.(type) {
+	case *ssa.Parameter:
+		if isMutableSlice(x.Type()) {
+			return "param", x
+		}
+	case *ssa.UnOp:
+		if x.Op == token.MUL {
+			if a, ok := x.X.(*ssa.Alloc); ok && !a.Heap {
+				// a local variable (named result, temporary): whatever was stored into it
+				if refs := a.Referrers(); refs != nil {
+					for _, r := range *refs {
+						if sto, ok := r.(*ssa.Store); ok && sto.Addr == a {
+							if k, o := fr.sliceSource(sto.Val, depth+1); k != "" {
+								return k, o
+							}
+						}
+					}
+				}
+				return "", nil
+			}
+			if v, ok := fr.vals[x.X]; ok && v.LV != nil && v.LV.kind == lvLocal {
+				return "", nil
+			}
+			return "heap", x
+		}
+	case *ssa.Lookup:
+		if _, isMap := types.Unalias(x.X.Type()).Underlying().(*types.Map); isMap {
+			return "heap", x
+		}
+	case *ssa.Slice:
+		if _, isPtr := x.X.Type().Underlying().(*types.Pointer); isPtr {
+			return "", nil
+		}
+		return fr.sliceSource(x.X, depth+1)
+	case *ssa.ChangeType:
+		return fr.sliceSource(x.X, depth+1)
+	case *ssa.Phi:
+		for _, e := range x.Edges {
+			if k, o := fr.sliceSource(e, depth+1); k != "" {
+				return k, o
+			}
+		}
+	case *ssa.Call:
+		if callee := x.Common().StaticCallee(); callee != nil {
+			if fc := fr.c.eng.cs.Funcs[callee.String()]; fc != nil && fc.ReturnsAlias != "" {
+				return "aliasresult", x
+			}
+		}
+	}
+	return "", nil
+}
+
+func (fr *Frame) retainsParam(p ssa.Value) bool {
+	for _, r := range fr.c.fc.Retains {
+		if r == p.Name() {
+			return true
+		}
+	}
+	// a renamed parameter: the contract may still use the recorded name
+	if meta := fr.c.eng.localsMeta[fr.fn.String()]; meta != nil && len(meta.Params) == len(fr.fn.Params) {
+		for i, q := range fr.fn.Params {
+			if q == p {
+				for _, r := range fr.c.fc.Retains {
+					if r == meta.Params[i] {
+						return true
+					}
+				}
+			}
+		}
+	}
+	return false
+}
+
+// aliasCheckKeep: the function stores v into the heap (field, element, map entry). If v's array belongs
+// to the caller (a slice parameter not declared `retains`) or to another holder (the result of a
+// returns_alias call), the stored location and that holder share the array: outside the value-semantics
+// model, so it is an obligation (A-ALIAS made explicit), not an assumption.
+func (fr *Frame) aliasCheckKeep(v ssa.Value, pos token.Pos, st *State) {
+	c := fr.c
+	if !fr.top || c.fc == nil || !isMutableSlice(v.Type()) {
+		return
+	}
+	kind, src := fr.sliceSource(v, 0)
+	var note string
+	switch kind {
+	case "param":
+		if fr.retainsParam(src) {
+			return
+		}
+		note = "the slice parameter " + src.Name() + " is stored without a copy: the caller's slice and this location share a backing array (declare `retains " + src.Name() + "` if the function is meant to keep it; callers are then checked)"
+	case "aliasresult":
+		note = "the result of " + shortFuncName(src.(*ssa.Call).Common().StaticCallee().String()) + " (returns_alias: it is also kept by its owner) is stored without a copy: two locations share a backing array"
+	default:
+		return
+	}
+	if c.fc.AllowAlias != "" {
+		c.abstracted("alias allowed: " + c.fc.AllowAlias)
+		return
+	}
+	_, line := c.eng.srcLine(pos)
+	ob := c.obligation("alias", "", pos, line, st.reach, "false", nil)
+	c.continueAfterFalse(st)
+	ob.Note = note + " (outside the value-semantics model, A-ALIAS)"
+}
+
+// aliasCheckReturn: returning a slice that stays stored in the heap hands the caller a second reference
+// to the same array; the contract must say so (returns_alias), which makes callers' uses checkable.
+func (fr *Frame) aliasCheckReturn(x *ssa.Return, st *State) {
+	c := fr.c
+	if !fr.top || c.fc == nil || c.fc.ReturnsAlias != "" {
+		return
+	}
+	for _, r := range x.Results {
+		if !isMutableSlice(r.Type()) {
+			continue
+		}
+		kind, src := fr.sliceSource(r, 0)
+		if kind != "heap" && kind != "aliasresult" {
+			continue
+		}
+		if c.fc.AllowAlias != "" {
+			c.abstracted("alias allowed: " + c.fc.AllowAlias)
+			continue
+		}
+		_, line := c.eng.srcLine(x.Pos())
+		ob := c.obligation("alias", "", x.Pos(), line, st.reach, "false", nil)
+		c.continueAfterFalse(st)
+		ob.Note = "a slice that stays stored in the heap (" + src.Name() + ") is returned without a copy: the caller and the owner share a backing array; declare `returns_alias` so that callers are checked (outside the value-semantics model, A-ALIAS)"
 	}
 }
